@@ -236,6 +236,19 @@ pub fn gen_c08(reg: Arc<Reg>) -> GenFn {
         let ss = field_sites(&ty, &pv);
         let mut faults = 0;
         for (path, fields, _tag, _) in ss.iter().rev() {
+            // a tag that is present but null / not a string is not an absent tag
+            if let Some(tag) = _tag {
+                if g.chance(0.06) {
+                    let tag = tag.clone();
+                    let nv = g.pick(&[PV::Null, PV::Null, PV::Int(0), PV::Bool(false), PV::Seq(vec![])]).clone();
+                    pv = update_at(&pv, path, &mut |old| match old {
+                        PV::Map(m) => PV::Map(m.iter().map(|(k, v)| if *k == tag { (k.clone(), nv.clone()) } else { (k.clone(), v.clone()) }).collect()),
+                        o => o.clone(),
+                    });
+                    faults += 1;
+                    continue;
+                }
+            }
             if !g.chance(0.8) {
                 continue;
             }
